@@ -383,7 +383,7 @@ class Executor(Engine, ExprMixin, StmtMixin, CallMixin):
                     continue      # no instantiation requested: the clause is not used at this call site
                 n0 = len(self.assumes)
                 wd, truth = self.eval_spec(st, expr, c, env2, pre)
-                self.assume(st, z3.Implies(wd, truth))
+                self.assume(st, And(wd, truth))
                 generic = self.assumes[n0:]
                 del self.assumes[n0:]
                 for m in insts:
@@ -392,7 +392,7 @@ class Executor(Engine, ExprMixin, StmtMixin, CallMixin):
                         self.assumes.append(z3.substitute(fml, *sub))
                 continue
             wd, truth = self.eval_spec(st, expr, c, env2, pre)
-            self.assume(st, z3.Implies(wd, truth))
+            self.assume(st, And(wd, truth))
             if getattr(self, 'debug_assumed', None) is not None:
                 self.debug_assumed.append((c.qual, name, line, wd, truth, st.guard))
         return res
@@ -543,10 +543,13 @@ class Executor(Engine, ExprMixin, StmtMixin, CallMixin):
         for n, tsp in spec.get('var_types', {}).items():
             old = st.vars.get(n)
             sp = parse_spec(tsp)
-            if n not in names and isinstance(old, V) and sp.kind == 'list' and sp.elem is not None \
-                    and repr(old.hint) != repr(sp):
-                self.oblige(st, '%s.elemtype.%s.init' % (name, n), self.list_len(st, Val.r(old.t)) == 0,
-                            'the list %s, given the element type %s for the loop, is empty at loop entry' % (n, tsp))
+            if n not in names and isinstance(old, V) and repr(old.hint) != repr(sp):
+                # the variable is not reassigned by the loop: the declared type has to hold at loop entry
+                self.oblige(st, '%s.vartype.%s.init' % (name, n), sp.assumption(old.t),
+                            'the local %s has the type %s declared for the loop at loop entry' % (n, tsp))
+                if sp.kind == 'list' and sp.elem is not None:
+                    self.oblige(st, '%s.elemtype.%s.init' % (name, n), self.list_len(st, Val.r(old.t)) == 0,
+                                'the list %s, given the element type %s for the loop, is empty at loop entry' % (n, tsp))
 
     def ghost_init(self, st, spec):
         """ghost variables captured at loop entry (visible to invariants and to the postconditions)"""
@@ -611,10 +614,18 @@ class Executor(Engine, ExprMixin, StmtMixin, CallMixin):
             view = 'enumerate'
         else:
             seq = it
-        if not (isinstance(seq, V) and seq.hint is not None and seq.hint.kind in ('list', 'tuple', 'dict', 'set')):
+        is_str = isinstance(seq, V) and seq.hint is not None and seq.hint.kind == 'str' and not seq.hint.opt
+        if not is_str and not (isinstance(seq, V) and seq.hint is not None and seq.hint.kind in ('list', 'tuple', 'dict', 'set')):
             raise EngineError('for-loop over %r' % (seq,))
-        r = Val.r(seq.t)
-        n = self.list_len(st, r)
+        if is_str:
+            # iteration over the characters of an (immutable) string
+            sstr = Val.s(seq.t)
+            r = None
+            length_of = lambda state: z3.Length(sstr)
+        else:
+            r = Val.r(seq.t)
+            length_of = lambda state: self.list_len(state, r)
+        n = length_of(st)
         self.assume(st, n >= 0)
         st.vars[ivar] = V(mkI(0), parse_spec('int'))
         self.ghost_init(st, spec)
@@ -629,7 +640,7 @@ class Executor(Engine, ExprMixin, StmtMixin, CallMixin):
         self.havoc_loop(after, spec, body_stmts)
         iv_e = fresh('Iend', IntS)
         after.vars[ivar] = V(mkI(iv_e), parse_spec('int'))
-        n_e = self.list_len(after, r)
+        n_e = length_of(after)
         self.assume(after, And(iv_e >= 0, iv_e <= n_e))
         self.assume_inv(after, spec, generalize=True)
         after.guard = And(after.guard, iv_e >= n_e)
@@ -637,17 +648,23 @@ class Executor(Engine, ExprMixin, StmtMixin, CallMixin):
         self.havoc_loop(st, spec, body_stmts)
         iv = fresh('I', IntS)
         st.vars[ivar] = V(mkI(iv), parse_spec('int'))
-        n = self.list_len(st, r)
+        n = length_of(st)
         self.assume(st, And(iv >= 0, iv <= n))
         self.assume_inv(st, spec)
-        head_elem = z3.Select(self.harr(st, '$ELEM'), r)
-        head_off = self.list_off(st, r)
+        if not is_str:
+            head_elem = z3.Select(self.harr(st, '$ELEM'), r)
+            head_off = self.list_off(st, r)
         # body path
         st.guard = And(st.guard, iv < n)
         body_rec = {'name': name, 'guard': st.guard, 'cond': iv < n, 'n_begin': len(self.assumes)}
         self.body_regions.append(body_rec)
-        elem_t = self.list_elem(st, r, iv)
-        es = seq.hint.elem
+        if is_str:
+            elem_t = mkS(z3.SubString(sstr, iv, 1))
+            es = parse_spec('str')
+            self.assume(st, z3.Length(z3.SubString(sstr, iv, 1)) == 1)
+        else:
+            elem_t = self.list_elem(st, r, iv)
+            es = seq.hint.elem
         if view is not None and view in ('items', 'keys', 'values'):
             k = elem_t
             self.assume(st, self.dict_get(st, Val.r(dv.t), k) != ABSENT)
@@ -691,9 +708,10 @@ class Executor(Engine, ExprMixin, StmtMixin, CallMixin):
         if not st.dead():
             st.vars[ivar] = V(mkI(iv + 1), parse_spec('int'))
             # the iterated list itself must not change
-            self.oblige(st, name + '.iter_unchanged', And(self.list_len(st, r) == n,
-                        z3.Select(self.harr(st, '$ELEM'), r) == head_elem, self.list_off(st, r) == head_off),
-                        'the list being iterated is not modified by the loop body')
+            if not is_str:
+                self.oblige(st, name + '.iter_unchanged', And(self.list_len(st, r) == n,
+                            z3.Select(self.harr(st, '$ELEM'), r) == head_elem, self.list_off(st, r) == head_off),
+                            'the list being iterated is not modified by the loop body')
             self.check_inv(st, spec, name, 'preserve', None)
         # continue after the loop
         st.vars, st.heap, st.guard = after.vars, after.heap, after.guard
